@@ -270,6 +270,20 @@ static void checkReadBack(const std::string &where, const Stored &st, occaType r
     if (occaIsUndefined(n)) hp::oracle(where + ": occaJsonGetNumber(type of the stored " + v.kind + ") is undefined: the value is lost");
     else if (n.type != e.tag || n.bytes != e.bytes) hp::oracle(where + ": stored " + v.kind + " reads back with tag " + std::to_string(n.type));
     else if (memberBits(n) != e.bits) hp::oracle(where + ": stored " + v.kind + " " + hex64(e.bits) + " reads back as " + hex64(memberBits(n)));
+    // the same value, not only the same bits: read through a wider type and compare with the C conversion
+    if (e.tag != OCCA_FLOAT && e.tag != OCCA_DOUBLE) {
+      const bool sgn = (e.tag == OCCA_INT8 || e.tag == OCCA_INT16 || e.tag == OCCA_INT32 || e.tag == OCCA_INT64);
+      uint64_t wide = e.bits;
+      if (sgn && e.bytes < 8 && (e.bits >> (8 * e.bytes - 1))) wide |= ~0ull << (8 * e.bytes);
+      occaType w = occaJsonGetNumber(r, OCCA_INT64);
+      if (occaIsUndefined(w) || w.type != OCCA_INT64 || memberBits(w) != wide)
+        hp::oracle(where + ": stored " + v.kind + " " + hex64(e.bits) + " converts to int64 " + (occaIsUndefined(w) ? std::string("undef") : hex64(memberBits(w))) + " instead of " + hex64(wide));
+    } else if (e.tag == OCCA_FLOAT) {
+      const float f = fromBits<float>(e.bits);
+      occaType w = occaJsonGetNumber(r, OCCA_DOUBLE);
+      if (occaIsUndefined(w) || w.type != OCCA_DOUBLE || (f == f ? memberBits(w) != toBits<double>((double) f) : w.value.double_ == w.value.double_))
+        hp::oracle(where + ": stored float does not convert to the same double");
+    }
   } else if (v.kind == "str") {
     if (occaIsUndefined(r) || r.type != OCCA_JSON || !occaJsonIsString(r)) { hp::oracle(where + ": stored string does not read back as a json string"); return; }
     if (std::string(occaJsonGetString(r)) != v.str) hp::oracle(where + ": stored string reads back with other bytes");
@@ -539,6 +553,22 @@ static std::string step(const toks &t) {
     } catch (...) { return "err"; }
   }
 
+  //--- strings returned by the API: kernel hash (malloc'ed C strings)
+  if (op == "khash" && t.size() == 1) {
+    try {
+      buildKernels();
+      const char *h = occaKernelHash(kAll);
+      const char *f = occaKernelFullHash(kAll);
+      if (!h || !f) return "null";
+      const size_t lh = strlen(h), lf = strlen(f);          // reads the result as the C string it is declared to be
+      if (lh != 16 || lf != 64) hp::oracle("occaKernelHash/occaKernelFullHash: returned strings have lengths " + std::to_string(lh) + "/" + std::to_string(lf));
+      else if (strncmp(h, f, 16)) hp::oracle("occaKernelHash is not the prefix of occaKernelFullHash");
+      std::string r = std::to_string(lh) + " " + std::to_string(lf);
+      ::free((void*) h); ::free((void*) f);
+      return r;
+    } catch (...) { return "err"; }
+  }
+
   //--- handles
   try {
     if (op == "jnew" && t.size() == 2) {
@@ -579,13 +609,16 @@ static std::string step(const toks &t) {
       if (!hp::unhex(t[2], key) || key.find('\0') != std::string::npos || !v.ok) return "bad-op";
       if (!build(v, vt)) return "nosuch";
       Stored st = makeStored(v, vt);
+      const bool selfAlias = (v.kind == "h" && rootOf.count(v.slot) && rootOf.count(id) && rootOf[v.slot] == rootOf[id]);
       forgetOthers(id);
-      if (!plainKey(key)) forgetTree(id);
+      if (!plainKey(key) || selfAlias) forgetTree(id);
       occaJsonObjectSet(h, key.c_str(), vt);
-      // immediate read-back
-      if (!occaJsonObjectHas(h, key.c_str())) hp::oracle("occaJsonObjectSet: the key is not there afterwards");
-      else if (!key.empty()) checkReadBack("read-back after set", st, occaJsonObjectGet(h, key.c_str(), occaUndefined));
-      if (plainKey(key)) objShadow[id][key] = st;
+      // immediate read-back (the empty key replaces the document itself: nothing to look up then)
+      if (!key.empty() && !selfAlias) {
+        if (!occaJsonObjectHas(h, key.c_str())) hp::oracle("occaJsonObjectSet: the key is not there afterwards");
+        else checkReadBack("read-back after set", st, occaJsonObjectGet(h, key.c_str(), occaUndefined));
+      }
+      if (plainKey(key) && !selfAlias) objShadow[id][key] = st;
       arrShadow.erase(id);
       return "ok";
     }
@@ -598,8 +631,11 @@ static std::string step(const toks &t) {
       occaType r = occaJsonObjectGet(h, key.c_str(), vt);
       if (plainKey(key) && objShadow.count(id2) && objShadow[id2].count(key)) checkReadBack("get after history", objShadow[id2][key], r);
       storeSlot(id, r, NULL);
-      if (!occaIsUndefined(r) && r.type == OCCA_JSON && r.value.ptr != vt.value.ptr && rootOf.count(id2)) registerHandle(id, rootOf[id2]);
-      else if (dv.kind == "h" && rootOf.count(dv.slot) && !occaIsUndefined(r) && r.type == OCCA_JSON) registerHandle(id, rootOf[dv.slot]);
+      const bool fromDefault = (dv.kind == "h" && !occaIsUndefined(r) && r.type == OCCA_JSON && r.value.ptr == vt.value.ptr);
+      if (!fromDefault && !occaIsUndefined(r) && r.type == OCCA_JSON) {
+        if (r.needsFree) hp::oracle("occaJsonObjectGet returned an owning handle for a member of the document");
+        if (rootOf.count(id2)) registerHandle(id, rootOf[id2]);
+      } else if (fromDefault && rootOf.count(dv.slot)) registerHandle(id, rootOf[dv.slot]);
       std::string d = desc(r);
       if (!occaIsUndefined(r) && r.type == OCCA_JSON) d += ":" + kindFlags(r);
       return d;
@@ -615,11 +651,13 @@ static std::string step(const toks &t) {
       if (!v.ok) return "bad-op";
       if (!build(v, vt)) return "nosuch";
       Stored st = makeStored(v, vt);
+      const bool selfAlias = (v.kind == "h" && rootOf.count(v.slot) && rootOf.count(id) && rootOf[v.slot] == rootOf[id]);
       forgetOthers(id);
       const bool noneArg = (v.kind == "h" && !occaIsUndefined(vt) && vt.type == OCCA_JSON && kindFlags(vt) == "00000" && dumpOf(vt).empty());
       occaJsonArrayPush(h, vt);
       const int n = occaJsonArraySize(h);
-      if (!noneArg) {
+      if (selfAlias) { forgetTree(id); arrShadowValid[id] = false; }     // the value was read after the array was prepared
+      else if (!noneArg) {
         if (n < 1) hp::oracle("occaJsonArrayPush: array is empty afterwards");
         else checkReadBack("read-back after push", st, occaJsonArrayGet(h, n - 1));
         if (arrShadowValid[id]) arrShadow[id].push_back(st);
@@ -638,6 +676,7 @@ static std::string step(const toks &t) {
       if (inRange && arrShadowValid[id2] && arrShadow.count(id2) && (size_t) idx < arrShadow[id2].size())
         checkReadBack("array get after history", arrShadow[id2][idx], r);
       storeSlot(id, r, NULL);
+      if (!occaIsUndefined(r) && r.type == OCCA_JSON && r.needsFree) hp::oracle("occaJsonArrayGet returned an owning handle for an element of the array");
       if (!occaIsUndefined(r) && r.type == OCCA_JSON && rootOf.count(id2)) registerHandle(id, rootOf[id2]);
       std::string d = desc(r);
       if (!occaIsUndefined(r) && r.type == OCCA_JSON) d += ":" + kindFlags(r);
@@ -663,11 +702,15 @@ static std::string step(const toks &t) {
       if (!v.ok) return "bad-op";
       if (!build(v, vt)) return "nosuch";
       Stored st = makeStored(v, vt);
+      const bool selfAlias = (v.kind == "h" && rootOf.count(v.slot) && rootOf.count(id) && rootOf[v.slot] == rootOf[id]);
       forgetOthers(id);
       occaJsonArrayInsert(h, idx, vt);
-      checkReadBack("read-back after insert", st, occaJsonArrayGet(h, idx));
-      if (arrShadowValid[id] && arrShadow.count(id) && (size_t) idx <= arrShadow[id].size()) arrShadow[id].insert(arrShadow[id].begin() + idx, st);
-      else arrShadowValid[id] = false;
+      if (selfAlias) { forgetTree(id); arrShadowValid[id] = false; }
+      else {
+        checkReadBack("read-back after insert", st, occaJsonArrayGet(h, idx));
+        if (arrShadowValid[id] && arrShadow.count(id) && (size_t) idx <= arrShadow[id].size()) arrShadow[id].insert(arrShadow[id].begin() + idx, st);
+        else arrShadowValid[id] = false;
+      }
       return "ok";
     }
     if (op == "clr" && t.size() == 2) {
@@ -788,13 +831,18 @@ static std::string step(const toks &t) {
 // LeakSanitizer is asked whether anything allocated so far has become unreachable (an object no handle
 // designates can never be freed by the C program).  LSan re-reports old leaks on every check, so the
 // process ends after the first report and the checker restarts it for the remaining histories.
+// The check stops the world and scans the heap (~0.5 s under ASan), so the plugin asks for it after every
+// history only for the corpus and when a batched run has reported a leak (H_CAPI_LEAK_EVERY).
 #include <sanitizer/lsan_interface.h>
 #include <unistd.h>
 extern "C" const char *__lsan_default_suppressions() {
-  return "leak:occa::lang::\n";       // the OKL parser's own leaks while a kernel is compiled are not C29's business
+  return "leak:occa::lang::\nleak:buildKernel\n";       // the OKL parser's own leaks while a kernel is compiled are not C29's business
 }
-static void endHistory() {
+static int leakEvery = 1, historiesDone = 0;
+static void endHistory(bool last) {
   resetAll();
+  ++historiesDone;
+  if (!last && (historiesDone % leakEvery) != 0) return;     // H_CAPI_LEAK_EVERY=N: the (slow) check every N histories
   if (__lsan_do_recoverable_leak_check()) {
     hp::oracle("LeakSanitizer: an object allocated by the C API is unreachable and was never freed");
     std::cout << "LEAK" << std::endl;
@@ -803,11 +851,12 @@ static void endHistory() {
 }
 
 int main() {
+  if (getenv("H_CAPI_LEAK_EVERY")) leakEvery = std::max(1, atoi(getenv("H_CAPI_LEAK_EVERY")));
   std::string line;
   bool active = false;
   while (std::getline(std::cin, line)) {
     if (!line.empty() && line[0] == '#') {
-      if (active) endHistory();
+      if (active) endHistory(false);
       std::cout << line << "\n";
       active = true;
       continue;
@@ -815,6 +864,6 @@ int main() {
     toks t = hp::split(line);
     std::cout << step(t) << std::endl;
   }
-  if (active) endHistory();
+  if (active) endHistory(true);
   return 0;
 }
